@@ -523,6 +523,24 @@ def run(ctx):
                 ctx.oblig(ok, {"marker <-": expr_str(e)}, "None or Some(pc under test)")
                 if not ok:
                     ctx.violation("marker-value", sp_file_line(s_.get("sp")), "the just-paused marker is set to `%s` (expected None or Some(pc))" % expr_str(e))
+    # nobody else arms the marker: outside the interrupt check it may only be cleared (a `Some(address)` stored by a command would make the
+    # next arrival at that address run through although execution never paused there)
+    ctx.instance(1)
+    foreign = []
+    for n_, f_ in sorted(prog.fns.items()):
+        if f_.bkind != "fn" or n_ == cic or not n_.startswith("lace::"):
+            continue
+        for b_, i_, s_ in f_.assigns():
+            pr_ = [e_ for e_ in s_["p"].get("pr", []) if isinstance(e_, dict) and "f" in e_]
+            if pr_ and pr_[-1].get("n") == mk and (pr_[-1].get("adt") in (None, "lace::debugger::Debugger")):
+                e_ = f_.rvalue_expr(s_["r"], 4, stop={"named"})
+                if not (e_[0] == "agg" and e_[1][-1] == "None"):
+                    foreign.append((n_, s_, e_))
+    ctx.oblig(not foreign, {"marker `%s` armed outside the interrupt check" % mk: [short(n_) for n_, s_, e_ in foreign]}, "nowhere")
+    for n_, s_, e_ in foreign:
+        ctx.violation("marker-armed-elsewhere|%s" % short(n_), sp_file_line(s_.get("sp")),
+                      "`%s` sets the just-paused marker to `%s`; only the interrupt check may arm it (with the PC it has just stopped at) - armed for an address "
+                      "execution never paused at, the first arrival at that breakpoint is not stopped" % (short(n_), expr_str(e_, 60)))
     # run loop: while attached, next_action is on every path from the loop head to execute
     ex = [b for b, t, c in rl.calls() if c == EXEC]
     pzb = [b for b, t, c in rl.calls() if c == pz.name]
